@@ -486,8 +486,12 @@ func (c *Client) Mail(from string, opts *MailOptions) error {
 		}
 		// We can safely discard parameter if server does not support AUTH.
 	}
-	_, _, err := c.cmd(250, "%s", sb.String())
-	return err
+	if _, _, err := c.cmd(250, "%s", sb.String()); err != nil {
+		return err
+	}
+	// A new transaction starts without recipients.
+	c.rcpts = nil
+	return nil
 }
 
 // Rcpt issues a RCPT command to the server using the provided email address.
@@ -563,6 +567,9 @@ func (d *dataCloser) Close() error {
 	}
 	// Whatever the server's verdict, the end-of-data marker goes out once.
 	d.closed = true
+	// The transaction, with its recipients, is over.
+	rcpts := d.c.rcpts
+	d.c.rcpts = nil
 
 	if err := d.WriteCloser.Close(); err != nil {
 		return err
@@ -571,13 +578,13 @@ func (d *dataCloser) Close() error {
 	d.c.conn.SetDeadline(time.Now().Add(d.c.SubmissionTimeout))
 	defer d.c.conn.SetDeadline(time.Time{})
 
-	expectedResponses := len(d.c.rcpts)
+	expectedResponses := len(rcpts)
 	if d.c.lmtp {
 		// Without a status callback a refusal must not get lost: the first
 		// one is returned once all replies have been read.
 		var firstErr error
 		for expectedResponses > 0 {
-			rcpt := d.c.rcpts[len(d.c.rcpts)-expectedResponses]
+			rcpt := rcpts[len(rcpts)-expectedResponses]
 			if _, _, err := d.c.readResponse(250); err != nil {
 				if smtpErr, ok := err.(*SMTPError); ok {
 					if d.statusCb != nil {
